@@ -30,7 +30,10 @@ SPELL_X = [['X'], ['B', 'X'], ['A', 'B', 'X'], ['A', 'X'], ['C', 'X'], ['AB', 'X
 KIND3 = ['absent', 'real', 'decoy']
 
 
-def nest(path, nodes):
+def nest(path, nodes, multi=False):
+    """multi: the whole path as ONE namespace element with a multi-identifier name (namespace A.B { ... })"""
+    if multi and len(path) >= 2:
+        return [['ns', list(path), nodes]]
     for ident in reversed(path):
         nodes = [['ns', [ident], nodes]]
     return nodes
@@ -76,7 +79,7 @@ def model_a(case):
             doc += nest(scope, [['enum', 'X', ['Ok']]])
     comp_scope = case['scope']
     direction = case.get('dir', 'provides')
-    doc += nest(comp_scope, [['component', 'Comp', [['p', case['spell'], direction, False]]]])
+    doc += nest(comp_scope, [['component', 'Comp', [['p', case['spell'], direction, False]]]], case.get('multi'))
     return {'doc': doc, 'encapsulee': comp_scope + ['Comp'], 'file': 'M.dzn'}
 
 
@@ -131,9 +134,9 @@ def model_b(case):
     nested = [['enum', 'Res', ['Ok', 'No']]]
     if case.get('nested'):
         nested.append(['enum', 'X', ['Ok']])      # declared inside the referring interface itself
-    doc += nest(itf_scope, [['interface', 'I', nested, events]])
+    doc += nest(itf_scope, [['interface', 'I', nested, events]], case.get('multi'))
     direction = case.get('dir', 'provides')
-    doc += nest(itf_scope, [['component', 'Comp', [['p', ['I'], direction, False]]]])
+    doc += nest(itf_scope, [['component', 'Comp', [['p', ['I'], direction, False]]]], case.get('multi'))
     return {'doc': doc, 'encapsulee': itf_scope + ['Comp'], 'file': 'M.dzn'}
 
 
@@ -281,6 +284,13 @@ def cases():
                 yield {'kind': 'b', 'assign': list(assign), 'scope': scope, 'spell': spell, 'mc': True}
                 if scope == ['A', 'B']:
                     yield {'kind': 'b', 'assign': list(assign), 'scope': scope, 'spell': spell, 'sem': 'STS'}
+    # the referring scope A.B written as ONE multi-identifier namespace element: the intermediate scope A is still on
+    # the chain
+    for assign in itertools.product(KIND3, repeat=5):
+        for spell in SPELL_X:
+            yield {'kind': 'a', 'assign': list(assign), 'scope': ['A', 'B'], 'spell': spell, 'dir': 'provides',
+                   'sem': 'MTS', 'multi': True}
+            yield {'kind': 'b', 'assign': list(assign), 'scope': ['A', 'B'], 'spell': spell, 'multi': True}
     # namespace paths that repeat an identifier (A.A, A.B.A): outward walking must cut by position, not by name
     rep_scopes = [[], ['A'], ['A', 'A'], ['A', 'B'], ['A', 'B', 'A']]
     rep_spell = [['X'], ['A', 'X'], ['A', 'A', 'X'], ['B', 'A', 'X'], ['A', 'B', 'X']]
